@@ -48,6 +48,13 @@ HARNESSES = [
        desc='concurrent_queue<136-byte struct>, 3 threads x 1 operation: ' + DESC,
        bounds={'threads': 3, 'ops_per_thread': 1, 'free_rounds': 2, 'forced_rounds': 2, 'spin_unroll': 1}),
 ]
+# development aid (mutation testing): C09_SC="0,3" keeps only these scenario indices of every harness
+import os as _os
+if _os.environ.get('C09_SC'):
+    _k = [int(x) for x in _os.environ['C09_SC'].split(',')]
+    for _h in HARNESSES:
+        for _key in ('scenarios', 'scenarios_quick', 'scenarios_thorough'):
+            if _key in _h: _h[_key] = [x for i, x in enumerate(_h[_key]) if i in _k]
 OUTSIDE = []
 STUBS = []
 ASSUMPTIONS = []
